@@ -1,6 +1,7 @@
 """C12 — dynamic update semantics: authorise -> prerequisites -> prescan -> apply ordering; reject-code tables = RFC 2136
 pseudocode; apex SOA/NS protection; CNAME exclusivity before insert; serial bump iff updated; per-record effects unconditional."""
 import re
+import helpers
 from api import shorten
 
 EXPLANATION = (
@@ -198,3 +199,6 @@ def run(cx):
     if ie:
         r_ = cx.returns(ie, r'.')
         cx.check('C12.T1', len(r_) == 1 and r_[0].term in ('AuthLookup::was_empty(arg1)', 'eq(0,Iterator::count(AuthLookup::iter(arg1)))'), ie.path, 'ret', 'is_empty=was_empty', '; '.join(x.term[:100] for x in r_))
+
+    # ---------------------------------------------------------------- H helper semantics the guards above rely on (rules/helpers.py)
+    helpers.check(cx, 'C12.H', ['LowerName::zone_of', 'SerialNumber::partial_cmp'])
